@@ -98,9 +98,14 @@ def shape_request(rng, o, relative, scale=20.0, kinds=None, grid=None):
         a0 = rng.uniform(-math.pi, math.pi)
         cx, cy = o[0] - r0 * math.cos(a0), o[1] - r0 * math.sin(a0)
         center = (cx - o[0], cy - o[1])
+        # the same centre given as a 3-D offset (a difference of two 3-D points): the curve lies in the
+        # XY plane about (cx, cy), so the Z component of the centre changes nothing
+        center_arg = center
+        if rng.random() < 0.25:
+            center_arg = center + (rng.choice([0.0, 2.0, -o[2], rng.uniform(-1, 1) * scale]),)
         if kind == "circle":
             meta.update(center=center, r=r0)
-            return "trace.circle", (center,), {}, meta
+            return "trace.circle", (center_arg,), {}, meta
         sweep = rng.uniform(0.05, 2 * math.pi - 0.05)
         # actual start radius/angle as the code will see them
         r_start = math.hypot(o[0] - cx, o[1] - cy)
@@ -115,10 +120,10 @@ def shape_request(rng, o, relative, scale=20.0, kinds=None, grid=None):
         target = _tgt(o, t, relative, with_z)
         if kind == "arc":
             meta.update(center=center, target_abs=t)
-            return "trace.arc", (target, center), {}, meta
+            return "trace.arc", (target, center_arg), {}, meta
         turns = rng.choice([1, 1, 2, 3, 5])
         meta.update(center=center, target_abs=t, turns=turns)
-        return "trace.helix", (target, center, turns), {}, meta
+        return "trace.helix", (target, center_arg, turns), {}, meta
 
     if kind == "arc_radius":
         d = rng.uniform(0.2, 1.5) * scale
